@@ -525,6 +525,19 @@ func c44CheckRoundTrip(p *keyPool, cs *c44Case, out []byte, which int, bufSize i
 		if signer == nil || signer.PrimaryKey.KeyId != cs.signer.ent.PrimaryKey.KeyId {
 			return nil, fmt.Errorf("CheckDetachedSignature returned the wrong signer")
 		}
+		// same verdict however the document is delivered (one byte at a time, a boundary
+		// between every CR and LF, the last bytes together with io.EOF)
+		for _, nr := range fixedReaderFamily(cs.msg) {
+			var e2 error
+			if strings.HasSuffix(cs.op, "-armor") {
+				_, e2 = openpgp.CheckArmoredDetachedSignature(ring, nr.r, bytes.NewReader(out))
+			} else {
+				_, e2 = openpgp.CheckDetachedSignature(ring, nr.r, bytes.NewReader(out))
+			}
+			if e2 != nil {
+				return nil, fmt.Errorf("signature verifies from a one-piece reader but not from a %s reader: %v", nr.name, e2)
+			}
+		}
 		return nil, nil
 	}
 }
